@@ -193,6 +193,12 @@ def engine_sim(c, name, menu, lines="Lines4", maxlines=10, num=2000, modes=("bat
 
 def engine_union(c, t, joins=True):
     """random inputs over the union of all statement menus (every engine-based check runs it: shapes kept for one property are exercised under the others too)"""
+    # what reaches the engine is the file's line: empty lines, CRLF, a last line without line break, a line that is not UTF-8, one- and two-byte files (Reader.tla)
+    if not any(x.get("name") == "reader" for x in c.extra.get("configs", [])):
+        rr = tlc("MC_Reader", cfg_text(constants={"MaxLen": 4, "MaxFiles": 1, "Dev": set()}, invariants=["ExactlyOnceInOrder", "Emit"]), "reader-" + c.pid, workers=W)
+        expect_holds(rr, "Reader (%s)" % c.pid); c.add_tlc(rr)
+        c.add_report(vh_replay("reader", rr.replay_path, "reader-" + c.pid), "FileExecutor / join loader line reading vs Reader.tla (replay)")
+        c.extra.setdefault("configs", []).append({"name": "reader", "behaviours_replayed": rr.replays})
     engine_sim(c, "union", "UnionMenu", lines="LinesUnion", maxlines=8, num=1500 if t else 160, modes=("batch", "incr"), minlines=2)
     if joins:
         engine_sim(c, "union-join", "JoinUnionMenu", lines="LinesJ", maxlines=6, num=600 if t else 60, modes=("batch", "incr"), minlines=1)
@@ -297,7 +303,9 @@ def check_C05(tier):
     engine_run(c, "join-errors", "BadJoinMenu", lines="LinesJ", maxlines=1, maxfiles=1, tdefs=("plain",), invs=["TypeOK", "BatchRefinesSem"], props=())
     engine_run(c, "join-default", "JoinMenu", lines="LinesJ", maxlines=2, maxfiles=1, tdefs=("udef",))
     # several joins in one process with the joined table defined again in between (Session.tla): every statement loads the joined file under the definition in force
-    session_run(c, "redefine", ["join", "redefj", "count"], 4 if t else 3, formats=("text",))
+    session_run(c, "redefine", ["join", "join2", "redefj", "count"], 4 if t else 3, formats=("text",))
+    # a DEFAULT on the joined table's key column: every line of the joined file (an empty one, one that matches nothing) is a row and joins under that key
+    engine_run(c, "join-key-default", "JoinMenu", lines="LinesJ", maxlines=2, maxfiles=1, joinsets="JoinSetsEmpty", modes=("batch", "incr"), tdefs=("ukdef",))
     # a table joined with itself: plain names are the queried row, table-qualified names the joined row (WHERE / projections / aggregates / group keys on t.v alone)
     engine_run(c, "self-join", "SelfJoinMenu", lines="LinesJ", maxlines=3 if t else 2, maxfiles=1, modes=("batch", "incr"), tdefs=("selfj",))
     # the pairs a LIMIT keeps are the first of the ordered pair list, also when WHERE / DISTINCT reject earlier partners of a line
@@ -351,6 +359,8 @@ def check_C11(tier):
     # ... and white space at the end of a line (blank, tab, NO-BREAK SPACE, CR + blank) stays part of it for every reader: `input`, its length, DISTINCT / GROUP BY on it, an anchored pattern
     engine_run(c, "trailing-blanks", "PostMenu", lines="LinesPost", maxlines=2, maxfiles=2, modes=("batch", "incr"), tdefs=("anch", "plain"))
     engine_follow_run(c, "trailing-blanks", "PostMenu", lines="LinesPost", maxlines=2, tdefs=("anch", "plain"), sample=400)
+    # a table for which an empty line is a row (DEFAULT): batch and line-by-line runs see the same rows
+    engine_run(c, "incr-default", "CoreMenu", lines="LinesNoise", maxlines=3, maxfiles=1, modes=("incr", "batch"), tdefs=("vdef",))
     # line-by-line feeding of a statement with a join (library API: with_executed_joined_table + execute per line)
     engine_run(c, "incr-join", "JoinMenu", lines="LinesJ", maxlines=3 if t else 2, maxfiles=1, joinsets="JoinSets", modes=("incr",), tdefs=("plain",))
     # values that are equal but distinguishable (0.0 / -0.0, NaN / -NaN) arriving on either side of a shown table: PERCENTILE / MIN / MAX / GROUP BY keep the batch result
@@ -432,7 +442,7 @@ def cli_run(c, name, queries, defkinds, formats, maxargs, fileids=("fa", "fb", "
     return rep
 
 
-SESSION_CMDS = ["all", "join", "count", "group", "limit1", "selw", "dist", "rea", "reb", "createw", "redefj", "bad", "exit", "dt", "dw"]
+SESSION_CMDS = ["all", "join", "join2", "count", "group", "limit1", "selw", "dist", "rea", "reb", "createw", "redefj", "bad", "exit", "dt", "dw"]
 
 
 def session_run(c, name, commands, maxcmds, formats=("text", "json", "csv"), sample=None):
@@ -629,7 +639,7 @@ def check_C13(tier):
     return c.finish()
 
 
-LEX_ALL = set(range(1, 15))
+LEX_ALL = set(range(1, 16))
 
 
 def check_C20(tier):
@@ -644,6 +654,8 @@ def check_C20(tier):
         expect_holds(r, "Lexical %s (ideal lexer reads every layout variant as the base token stream)" % name); c.add_tlc(r)
         rep = vh_replay("lexical", r.replay_path, "lexical-" + name)
         c.add_report(rep, reg("parser vs Lexical.tla (layout variants)", "lexical"))
+    # the process: what -c / --command-file hand to the parser is the text as given -- a `;` inside a comment ends nothing, a final `;` and line break are layout
+    cli_run(c, "layout", ["commentsemi", "trailnl", "limit1", "limit2", "parsetrunc"], ["ok"], ["text"], 1, fileids=("fa", "fb"))
     laws_trace(c, 2 if t else 1, 300 if t else 100)
     c.rule = ("TLC applies every single edit (case flip of each keyword / function / aggregate / type name, each of 22 separators incl. comments and whitespace beyond ASCII (VT, FF, NBSP, NEL, U+2028, U+3000, U+2003) in every gap, leading / trailing separator, "
               "semicolon), every clause permutation and every pair of edits to 12 base statements covering the grammar, checks with an ideal lexer that the text still reads as the same tokens, "
@@ -663,7 +675,7 @@ def check_C14(tier):
         rep = vh_replay("parsetotal", r.replay_path, "parsetotal-" + name)
         c.add_report(rep, reg("parser totality vs ParseTotal.tla", "parsetotal"))
     # the process: a statement / definition file that does not parse gives one located message (exit status 1 only for the definition file), no crash
-    cli_run(c, "messages", ["parsebad", "create", "all", "notable"], ["ok", "bad", "none"], ["text"], 1)
+    cli_run(c, "messages", ["parsebad", "parsetrunc", "parsetrunc2", "commentsemi", "trailnl", "create", "all", "notable"], ["ok", "bad", "twobad", "nosemi", "none"], ["text"], 1)
     trace_check(c, "parse", "Trace_Parse", 20000 if t else 5000, "parse", "random Unicode / mutated statements", rounds=2 if t else 1)
     c.rule = ("TLC generates: every valid base statement with one (thorough: two) lexeme deleted / duplicated / swapped and every character prefix; all token soups of <= 2 (thorough 3) tokens over a "
               "51-token vocabulary; 24 malformed-but-plausible statements that must be errors; nesting of ( [ CASE up to depth 64. The harness parses each (parse and parse_into_tree) under "
@@ -834,7 +846,7 @@ def check_C18(tier):
     # several statements in one process: what a statement prints does not depend on what ran before it (fresh engine, printer, DISTINCT memory, compiled patterns)
     session_run(c, "history", SESSION_CMDS, 3 if t else 2, formats=("text", "json", "csv") if t else ("text", "csv"))
     # a table defined again between two statements that join it: the second statement sees the new definition (nothing loaded for the first is used again)
-    session_run(c, "redefine", ["join", "redefj", "count"], 4 if t else 3, formats=("text",))
+    session_run(c, "redefine", ["join", "join2", "redefj", "count"], 4 if t else 3, formats=("text",))
     engine_sim(c, "determinism", "DistinctMenu", lines="Lines4", maxlines=10, num=1000 if t else 80)
     engine_union(c, t)
     c.rule = ENGINE_RULE + (" Determinism of the model is checked through TLC's out-degree statistics (every state has at most one successor); every replayed behaviour must equal the model's unique output; "
